@@ -45,6 +45,9 @@ elif check == "mass_pd":
 elif check == "mass_total":
     print("t'Mt per direction", r["M_dir"], "expected", expect)
     bad = any(abs(x - expect) > 1e-9 * abs(expect) for x in r["M_dir"])
+elif check == "simu_mass":
+    print("simu.mass =", r["mass_prop"], "independent sum_e coef_e*measure_e*thickness =", expect)
+    bad = abs(r["mass_prop"] - expect) > 1e-9 * abs(expect)
 elif check == "beam_moment":
     print("x'Mt =", r["M_moment"], "expected sum_e rho_e A int_e x dx =", expect, " element lengths", r["L_e"])
     bad = abs(r["M_moment"] - expect) > 1e-9 * abs(expect)
@@ -75,6 +78,8 @@ sys.exit(1 if abs(d) > 1e-12 else 0)
 
 
 def replay(case, check, expect):
+    if expect is not None and not isinstance(expect, (int, str)):
+        expect = float(expect)
     c = {k: v for k, v in case.items() if k not in ("label",)}
     return {"replay_py": REPLAY % dict(case=json.dumps(c), check=check, expect=expect), "check": check, "expected": expect}
 
@@ -245,6 +250,7 @@ def check_grid(ctx, c, r, factory):
         expM = th * sum(_avg(co["rho"], wm, e) * _avg(co["c"], wm, e) * meas[e] for e in range(Ne))
         expE = th * sum(_avg(co["k"], wr, e) * r["density_e"][e] * meas[e] for e in range(Ne))
     K, M = r["K"], r["M"]
+    expM, expE = float(expM), float(expE)
     okm = all(abs(x - expM) <= 1e-9 * abs(expM) for x in r["M_dir"])
     ctx.obligation("coefficient field: sum of %s entries = sum_e coef_e*measure_e*thickness (%s)" % ("mass" if c["phys"] == "elastic" else "capacity", tag), okm, "%s vs %r" % (r["M_dir"], expM))
     if not okm:
@@ -258,7 +264,7 @@ def check_grid(ctx, c, r, factory):
         okp = abs(r["mass_prop"] - expM) <= 1e-9 * abs(expM)
         ctx.obligation("coefficient field: simu.mass (%s)" % tag, okp, "%r vs %r" % (r["mass_prop"], expM))
         if not okp:
-            ctx.violation("coef-simu-mass:" + tag, "%s: simu.mass = %r, independent total %r" % (tag, r["mass_prop"], expM), {"case": c}, True)
+            ctx.violation("coef-simu-mass:" + tag, "%s: simu.mass = %r, independent total %r" % (tag, r["mass_prop"], expM), replay(c, "simu_mass", expM), True)
     oks = K["sym_defect"] <= 1e-12 * K["absmax"] and K["eig_min"] >= -1e-10 * K["eig_max"] and M["sym_defect"] <= 1e-12 * M["absmax"] and M["eig_min"] > 1e-10 * M["eig_max"]
     ctx.obligation("coefficient field: K symmetric PSD, M/C symmetric positive definite (%s)" % tag, oks)
     if not oks:
